@@ -470,6 +470,19 @@ def prepare_alt():
             raise RuntimeError('rsync of the Coq tree failed (%d): %s' % (rc, o[-2000:]))
         if os.path.isdir(os.path.join(SHARED_BUILD, 'extract')):
             sh(['rsync', '-a', os.path.join(SHARED_BUILD, 'extract') + '/', os.path.join(BUILD, 'extract') + '/'])
+    # meta-evaluation only (tools/model_mutants.py): one textual edit of the hand-written model in the PRIVATE copy, to
+    # see whether a theorem or the correspondence notices a model that no longer says what the code does
+    edit = os.environ.get('VERIF_MODEL_EDIT')
+    if edit:
+        e = json.loads(edit)
+        fp = os.path.join(COQ, e['file'])
+        lines = open(fp).read().split('\n')
+        if e['old'] not in lines[e['line'] - 1]:
+            raise RuntimeError('VERIF_MODEL_EDIT does not apply: %r' % (e,))
+        lines[e['line'] - 1] = lines[e['line'] - 1].replace(e['old'], e['new'], 1)
+        open(fp, 'w').write('\n'.join(lines))
+        # the extracted runners are rebuilt from the edited model on demand
+        shutil.rmtree(os.path.join(BUILD, 'extract'), ignore_errors=True)
 
 
 def write_replay(pid, n, obj):
